@@ -17,21 +17,29 @@ What is RE-IMPLEMENTED in Python (faithfully, from the Rust sources)
       `reduce` incl. production inlining and `extend_span`, the start-token
       injection, the second EOI, `finish`), and `Spec::from(SpecSerializable)`
       incl. `get_token_kind`.  Tables come from the stand-in `parsing`
-      package (LALR(1), see lrgen.py) instead of the real `parsing` library.
+      package (LR(1) by Pager's method, see lrgen.py) instead of the real
+      `parsing` library.
     * `Hasher` (hash.rs), `normalize`/`Entry` (normalize.rs, pynormalize.rs),
       `offset_of_line` (position.rs of the binding).
+    * error recovery and custom syntax errors: `parse` first runs a plain
+      LR driver; on the first syntax error (or always, with
+      VRT_PARSER_ALWAYS_RECOVERING=1) the input is re-run through
+      stubs/edgeql_recovery.py, a statement-by-statement port of the
+      recovering driver of parser.rs and of parser/custom_errors.rs, so the
+      error list (messages "Missing ','", "Unexpected keyword 'X'" + hint /
+      details, "Missing parentheses around ...", spans) matches upstream on
+      all 278 negative tests of the upstream syntax corpora.
 
 What is NOT reproduced
-    * error recovery (token injection / skipping, cost model) and the custom
-      error rules of parser/custom_errors.rs: on the first syntax error
-      `parse` reports a single "Unexpected ..." error (reserved keywords get
-      the upstream wording "Unexpected keyword 'X'"); messages, hints and
-      the choice of the reported position may differ from upstream.
     * bincode formats: `pack()`/`unpack()`/pickling of tokens use a private
       JSON based format (round-trips within this substrate only).
     * `Entry.extra_blobs` uses a straightforward implementation of the
       PostgreSQL numeric wire format for bigint/decimal which has not been
       validated against edgedb-protocol.
+    * the LR automaton is ours (see lrgen.py): language-equivalent to
+      upstream's, different state numbering; in error recovery the set of
+      injectable tokens is "all tokens with an action in the current state",
+      which can in principle differ from upstream's in merged states.
 """
 
 from __future__ import annotations
@@ -48,6 +56,9 @@ import typing
 _RT = pathlib.Path(__file__).resolve().parent.parent
 if str(_RT) not in sys.path:
     sys.path.insert(0, str(_RT))
+_STUBS = pathlib.Path(__file__).resolve().parent
+if str(_STUBS) not in sys.path:
+    sys.path.append(str(_STUBS))
 
 import qllex  # noqa: E402
 
@@ -844,22 +855,28 @@ def _quote_name(s: str) -> str:
     return qllex.quote_name(s)
 
 
-def _terminal_display(t: Terminal, kind: str) -> str:
-    """Port of `impl Display for parser::Terminal` (non-placeholder)."""
-    friendly = {
-        'Ident': 'identifier', 'EOI': 'end of input',
-        'BinStr': 'binary constant', 'FloatConst': 'float constant',
-        'IntConst': 'int constant', 'DecimalConst': 'decimal constant',
-        'BigIntConst': 'big int constant', 'Str': 'string constant',
-    }
-    if not t.text and kind in friendly:
-        return friendly[kind]
-    if kind == 'Ident':
-        return "'%s'" % _quote_name(t.text)
-    kw = _kind_keyword(kind)
-    if kw is not None:
-        return "keyword '%s'" % kw.upper()
-    return "'%s'" % t.text
+_ALWAYS_RECOVERING = bool(os.environ.get('VRT_PARSER_ALWAYS_RECOVERING'))
+_RECOVERY_CTX: typing.Optional[tuple] = None
+
+
+def _parse_recovering(spec, productions, inp):
+    """Run the port of parser.rs::parse (with error recovery and custom
+    errors) over `inp` = [(kind, OpaqueToken|None)...] (start token + tokens
+    + second EOI)."""
+    global _RECOVERY_CTX
+    import edgeql_recovery as rec
+    if _RECOVERY_CTX is None or _RECOVERY_CTX[0] is not spec:
+        _RECOVERY_CTX = (spec, rec.Ctx(spec, sys.modules[__name__]))
+    ctx = _RECOVERY_CTX[1]
+    terms = []
+    for kind, tok in inp[:-1]:  # recovery.parse appends the second EOI itself
+        if tok is None:
+            terms.append(rec.RTerminal(kind, '', None, 0, 0))
+        else:
+            terms.append(rec.RTerminal(
+                kind, tok.text, tok.value, tok.start, tok.end))
+    node, errors = rec.parse(terms, ctx)
+    return (ParserResult(node, [e.as_tuple() for e in errors]), productions)
 
 
 def parse(start_token_name: str, tokens):
@@ -881,6 +898,13 @@ def parse(start_token_name: str, tokens):
     end = tokens[-1].end if tokens else 0
     inp.append(('EOI', OpaqueToken('EOI', '', None, end, end)))
 
+    if _ALWAYS_RECOVERING:
+        return _parse_recovering(spec, productions, inp)
+
+    # Fast path: plain LR driver without error recovery.  On the first
+    # syntax error the whole input is re-run through the faithful port of
+    # the recovering driver (stubs/edgeql_recovery.py), which yields the
+    # same CST when there is no error.
     # stack of (state, CSTNode | None)
     states = [0]
     values: list = [None]
@@ -893,9 +917,7 @@ def parse(start_token_name: str, tokens):
         while True:
             action = actions[states[-1]].get(kind)
             if action is None:
-                msg = 'Unexpected ' + _terminal_display(term, kind)
-                err = (msg, (term.start, term.end), None, None)
-                return ParserResult(None, [err]), productions
+                return _parse_recovering(spec, productions, inp)
             if action[0] == 0:
                 states.append(action[1])
                 values.append(CSTNode(None, term))
